@@ -32,8 +32,11 @@ def run(prog, rep, tier):
     check_layouts(prog, r2)
     r3 = rep.rule("R19.3", "entry counts are the length of the collection that is written")
     check_counts(prog, r3)
+    check_peer_index(prog, r3)
     r4 = rep.rule("R19.4", "one BGP PDU per Route Monitoring / BGP4MP record")
     check_pdu_count(prog, r4)
+    r6 = rep.rule("R19.6", "the embedded codec's add-path state is set from the record's own add-path flag for every record")
+    check_addpath_state(prog, r6)
     r5 = rep.rule("R19.5", "Peer Up Sent OPEN is built from local parameters")
     check_sent_open(prog, r5)
 
@@ -225,6 +228,67 @@ def check_counts(prog, r):
             else:
                 r.fail(nm, "count-source@%s" % "/".join(sorted(counted)), "the count written at line %d is the length of %s but the entries written afterwards come from %s" % (fv.line(bi), sorted(counted), sorted(iterated)), fv.loc(bi))
     r.floor("entry counts in TABLE_DUMP_V2 records", n, 2)
+
+
+def check_peer_index(prog, r):
+    """TABLE_DUMP_V2 peer indexes: a peer's index is its position in the PEER_INDEX_TABLE, i.e. `peers.len()` read at
+    the moment the peer is appended.  The length must be re-read in every iteration of the innermost loop that can
+    append (a value hoisted out of that loop is stale after the first append)."""
+    dk = prog.find(r"rustybgpd::mrt::dump_table")
+    if len(dk) != 1:
+        r.unanalysable("rustybgpd::mrt::dump_table anchor matched %d" % len(dk))
+        return
+    fv = view(prog, prog.body_key(dk[0]))
+    r.analysed(prog.name(dk[0]))
+    lps = loops(fv)
+    lens = [b for b, t in fv.calls(re.compile(r".*Vec::<T(, A)?>::len$")) if "PeerEntry" in t["f"].get("ga", "")]
+    users = [b for b, t in fv.calls(re.compile(r".*Entry::<.*>::(or_insert_with|or_insert)$")) if "u16" in t["f"].get("ga", "")]
+    if not lens or not users:
+        r.unanalysable("dump_table: peers.len() reads %d, peer_index inserts %d" % (len(lens), len(users)), fv.loc())
+        return
+    for ub in users:
+        inner = [body for h, body, backs in lps if ub in body]
+        if not inner:
+            r.ok("dump_table: peer index assigned outside any loop")
+            continue
+        body = min(inner, key=len)
+        if any(lb in body for lb in lens):
+            r.ok("dump_table: peers.len() is read in every iteration that can append a peer")
+        else:
+            r.fail(prog.name(dk[0]), "peer-index-stale-length", "the peer index is taken from a peers.len() read outside the innermost loop that appends peers (line %d): two peers first seen in the same "
+                   "pass get the same index, so RIB entries are attributed to the wrong peer" % fv.line(lens[0]), fv.loc(ub))
+
+
+def check_addpath_state(prog, r):
+    n = 0
+    for pat, container in ((BMP_ENC, "BMP"), (MRT_ENC, "MRT")):
+        k = _find(prog, pat)
+        if not k:
+            r.unanalysable("encoder %s not found" % container)
+            continue
+        fv = view(prog, k)
+        r.analysed(fv.name)
+        brs = branches(fv)
+        rend = Renderer(fv, depth=12)
+        sites = fv.calls(re.compile(r"rustybgp_packet::bgp::PeerCodec::set_family$"))
+        if not sites:
+            r.fail(fv.name, "no-set_family:" + container, "the embedded codec's per-family add-path state is never set from the record", fv.loc())
+            continue
+        for bi, t in sites:
+            n += 1
+            e = rend.operand(t["args"][2], 12)
+            fstate = [x for x in walk(e) if isinstance(x, tuple) and x and x[0] == "agg" and str(x[1]).endswith("FamilyState")]
+            vs = set(expr_vars(e))
+            gvars = {v for g, l, h in flat_guards(fv, bi, brs) for v in expr_vars(g)}
+            if "addpath" not in vs:
+                r.fail(fv.name, "addpath-state-not-from-record:" + container, "set_family is called with an add-path state that does not come from the record's `addpath` flag (%s): the shared codec "
+                       "keeps whatever an earlier record left" % show(e, 80), fv.loc(bi))
+            elif "addpath" in gvars:
+                r.fail(fv.name, "addpath-state-conditional:" + container, "set_family is skipped depending on `addpath`: after one add-path record the shared codec keeps writing path identifiers into "
+                       "records that state add-path off", fv.loc(bi))
+            else:
+                r.ok("%s: set_family(addpath_tx = record.addpath) for every record that carries a family" % container)
+    r.floor("set_family sites in the BMP/MRT encoders", n, 2)
 
 
 # ---------------------------------------------------------------------------------------------- R19.4
